@@ -133,6 +133,51 @@ def harness(ctx, pkg, test, inp, timeout=3000):
     return recs, out
 
 
+DEATH = ('panic: ', 'fatal error: ', 'unexpected signal', 'signal: ')
+
+
+def surviving(ctx, pkg, test, base, key, items, item_id, rec_id, timeout=3000, max_deaths=12):
+    """Run `items` in a child process that may DIE (a panic on a goroutine the code under test started cannot be recovered
+    by anybody: it kills the host process, which is exactly what the property forbids).  The harness flushes one record
+    per finished item; when the child dies, the first unfinished item is the one that killed it: it gets a synthetic
+    record {'died': text, 'where': function} and the rest is run in a new child.  Returns (records, deaths)."""
+    recs, deaths, rest = [], [], list(items)
+    while rest:
+        with _HLOCK:
+            _HSEQ[0] += 1
+            n = _HSEQ[0]
+        inp_path = os.path.join(ctx.work, 'c05-in-%d.json' % n)
+        out_path = os.path.join(ctx.work, 'c05-out-%d.ndjson' % n)
+        inp = dict(base)
+        inp[key] = rest
+        with open(inp_path, 'w') as f:
+            json.dump(inp, f)
+        rc, out = ctx.go_test(None, pkg, test, env={'VERIF_IN': inp_path, 'VERIF_OUT': out_path}, timeout=timeout)
+        got = read_ndjson(out_path) if os.path.exists(out_path) else []
+        recs += got
+        if rc == 0:
+            break
+        if not any(d in out for d in DEATH) or '[build failed]' in out or '[setup failed]' in out:
+            raise Infra('harness %s %s failed (rc=%d):\n%s' % (pkg, test, rc, out[-4000:]))
+        done = {rec_id(x) for x in got}
+        k = next((i for i, it in enumerate(rest) if item_id(it) not in done), None)
+        if k is None:
+            raise Infra('harness %s %s died after its last item:\n%s' % (pkg, test, out[-3000:]))
+        i = min(out.find(d) for d in DEATH if d in out)
+        text = out[i:].split('\n', 1)[0].strip()
+        where = '?'
+        for ln in out[i:].split('\n'):
+            for pk in ('internal/upload.', 'internal/counter.', 'internal/telemetry.'):
+                j = ln.find(pk)
+                if j >= 0 and 'c05' not in ln and 'verifrt' not in ln and where == '?':
+                    where = ln[j + len(pk):].split('(0x')[0].rsplit('(', 1)[0] if '(*' not in ln[j:] else ln[j + len(pk):].rsplit('(', 1)[0]
+        deaths.append(dict(item=rest[k], text=text, where=where.split('.func')[0], stack=out[i:i + 1500]))
+        rest = rest[k + 1:]
+        if len(deaths) >= max_deaths:
+            break
+    return recs, deaths
+
+
 def sharded(ctx, pool, pkg, test, base, key, items, shards, timeout=3000):
     """Run `items` (the list under base[key]) in `shards` concurrent harness processes."""
     shards = max(1, min(shards, len(items) // 50 or 1))
@@ -142,6 +187,33 @@ def sharded(ctx, pool, pkg, test, base, key, items, shards, timeout=3000):
         inp[key] = items[k::shards]
         futs.append(pool.submit(harness, ctx, pkg, test, inp, timeout))
     return futs
+
+
+def sharded_surviving(ctx, pool, pkg, test, base, key, items, item_id, rec_id, shards, timeout=3000):
+    shards = max(1, min(shards, len(items) // 50 or 1))
+    return [pool.submit(surviving, ctx, pkg, test, base, key, items[k::shards], item_id, rec_id, timeout) for k in range(shards)]
+
+
+def gather_surviving(futs):
+    recs, deaths = [], []
+    for f in futs:
+        r, d = f.result()
+        recs += r
+        deaths += d
+    return recs, deaths
+
+
+UPLOAD_STEP = dict(op='run', ret='ok', fired=0, steps=0, where='', text='', err=False, recovered=0, orphans=[], touched=[], deleted=0)
+
+
+def dead_steps(nsteps, d):
+    """Observation of an uploader scenario whose process died: the first step never returned."""
+    out = []
+    for k in range(nsteps):
+        st = dict(UPLOAD_STEP)
+        st.update(ret='panic-escapes' if k == 0 else 'skipped', where=d['where'] if k == 0 else '', text=d['text'] if k == 0 else '')
+        out.append(st)
+    return out
 
 
 def gather(futs):
@@ -173,6 +245,8 @@ def run(ctx):
         'corrupt files: one base layout (records E and C in one bucket, V alone on the second page), damage classes concretized by fixed representative values; '
         'random damage uses 32-aligned or out-of-range pointers only, so that decoder and library agree on which records exist',
         'truncation of a file that is currently mapped is outside the property; files deleted while in use are scenario steps (rmfile / rmdir)',
+        'leftover files in local/ whose names only look like reports (shorter than a date, as long as a date, invalid dates, prefixed, upper case, directory; StrayNames.tla) in modes on and local; '
+        'the uploader runs in a child process per batch: a child that dies (panic on a goroutine the code started, fatal error, signal) is the verdict "panic-escapes" for the case it was running',
         'the mode file is one of the damaged files: every prefix of the three texts SetMode writes plus garbage classes (ModeBytes.tla), through open + Add + Read and upload.Run; telemetry.Start (sidecar start-up) is C16 and not run here',
         'mode on: the uploader fetches its config through a file proxy (go mod download) as the repository tests do; the exec itself is not a fault point',
     ]
@@ -187,13 +261,63 @@ def run(ctx):
                               dump=True, workers=4, label='Corrupt (MaxDamage=%d)' % maxdmg)
     fut_cases = pool.submit(lambda: corrupt_replay(ctx, rng2, fut_corrupt.result(), pool))
     fut_mode = pool.submit(mode_part, ctx, pool)
+    fut_stray = pool.submit(stray_part, ctx, pool)
     fstate = faults_replay(ctx, rng, pool)
     faults_decide(ctx, *fstate)
     corrupt_decide(ctx, *fut_cases.result())
     fut_mode.result()
+    fut_stray.result()
     pool.shutdown()
     ctx.cov['rule'] = ('a case is one fault plan (which calls fail with which errno) replayed over one API scenario of the instrumented real packages, or one corrupt '
                        'counter file written to disk and opened + incremented by the real library; each is decided by TLC against Faults.tla / Corrupt.tla')
+
+
+# --------------------------------------------------------------------- stray names
+STRAY = {'dotjson': '.json', 'one': 'x.json', 'space': ' .json', 'multibyte': 'd\u00e4t\u00e4.json', 'nine': '123456789.json', 'ten-text': 'notadate10.json',
+         'baddate': '2024-13-45.json', 'future': '2031-01-06.json', 'prefixed': 'report-2024-01-01.json', 'upper': 'X.JSON', 'local-short': 'local.x.json',
+         'dir-short': 'y.json/'}
+
+
+def stray_part(ctx, pool):
+    """Leftover files in local/ whose names only look like reports (StrayNames.tla), in modes on and local."""
+    r = ctx.tlc('StrayNames', dump=True, workers=1, label='StrayNames (name class x mode)')
+    if not r.ok:
+        raise Infra('StrayNames.tla: spec-level sanity failed: %s %s\n%s' % (r.error, r.error_name, r.out[-3000:]))
+    vectors = sorted((st['cls'], st['mode']) for st in tlaval.read_dump(r.dump))
+    scn = [dict(name='stray:%d' % k, mode='on 2020-01-01' if m == 'on' else 'local', junk=False, debug=False, stray=[STRAY[c]], steps=['run'])
+           for k, (c, m) in enumerate(vectors)]
+    recs, deaths = gather_surviving(sharded_surviving(ctx, pool, './internal/upload', 'TestVerifC05Upload', {'plans': [], 'budget': 200000}, 'scenarios', scn,
+                                                      lambda it: it['name'], lambda x: x.get('scn'), 1))
+    for d in deaths:
+        recs.append(dict(kind='recording', scn=d['item']['name'], steps=dead_steps(1, d), tree=['local/' + d['item']['stray'][0].rstrip('/')], stack=d['stack']))
+    got = {x['scn']: x for x in recs if x.get('kind') == 'recording'}
+    lines, keep = [], []
+    for k, (c, m) in enumerate(vectors):
+        x = got.get('stray:%d' % k)
+        if x is None:
+            continue        # not run any more after too many deaths
+        st = x['steps'][0]
+        lines.append(dict(c=c, m=m, o=dict(ret=st['ret'], others=bool(st['orphans'] or st['touched']), gone=('local/' + STRAY[c].rstrip('/')) not in x.get('tree', []))))
+        keep.append((c, m, st, x))
+    r = ctx.tlc('StrayNamesTrace', files={'c05stray.ndjson': ndjson_text(lines)}, workers=1, label='StrayNamesTrace', count=False)
+    b = printed(r.out, 'C05SBAD')
+    if b is None or not r.ok:
+        raise Infra('StrayNamesTrace: no verdict (%s)\n%s' % (r.error, r.out[-3000:]))
+    ctx.cov['stray_name_cases'] = len(lines)
+    ctx.cov['evaluations'] += len(lines)
+    ctx.cov['traces_validated_against_impl'] += len(lines) - len(b)
+    ctx.cov['distinct_nontrivial'] += len(lines)
+    ctx.cov['panics_recovered_by_Run_on_stray_names'] = sum(x['steps'][0].get('recovered', 0) for (_, _, _, x) in keep)
+    for (i, verdict) in sorted(tuple(x) for x in b):
+        c, m, st, x = keep[i - 1]
+        if verdict == 'stray-file-removed':
+            ctx.cov['divergences'] += 1
+            ctx.warn('MODEL-DIVERGENCE stray file %r in local/ (mode %s) was removed by upload.Run although it is not taken for a report' % (STRAY[c], m))
+            continue
+        where = hang_fn(st.get('where')) if verdict in ('hang', 'blocked') else (st.get('where') or '?')
+        ctx.violation('C05:stray:%s:%s:%s:mode=%s' % (verdict, where, c, m), {'name': STRAY[c], 'class': c, 'mode': m, 'observed': x['steps'], 'stack': x.get('stack')},
+                      'a file named %r in local/, mode %s: upload.Run: %s: %s' % (STRAY[c], m, verdict, (st.get('where', '') + ' ' + st.get('text', '')).strip()))
+    ctx.sample({'kind': 'stray name', 'name': STRAY[keep[1][0]], 'mode': keep[1][1], 'observed': lines[1]['o']})
 
 
 # ------------------------------------------------------------------------ mode file
@@ -214,8 +338,11 @@ def mode_part(ctx, pool):
         else:
             uscn.append(dict(name='mode:%d' % k, mode='', modeClass=mc, junk=False, debug=False, steps=['run']))
     fc = pool.submit(harness, ctx, './internal/counter', 'TestVerifC05Faults', {'scenarios': cscn, 'plans': [], 'budget': 20000})
-    fu = sharded(ctx, pool, './internal/upload', 'TestVerifC05Upload', {'plans': [], 'budget': 200000}, 'scenarios', uscn, 2)
-    (crecs, out), (urecs, out2) = fc.result(), gather(fu)
+    fu = sharded_surviving(ctx, pool, './internal/upload', 'TestVerifC05Upload', {'plans': [], 'budget': 200000}, 'scenarios', uscn, lambda it: it['name'], lambda x: x.get('scn'), 2)
+    (crecs, out), (urecs, deaths) = fc.result(), gather_surviving(fu)
+    out2 = ''
+    for d in deaths:
+        urecs.append(dict(kind='recording', scn=d['item']['name'], steps=dead_steps(1, d), tree=[]))
     got = {x['scn']: x for x in crecs + urecs if x.get('kind') == 'recording'}
     if len(got) != len(vectors):
         raise Infra('C05 mode file: %d results for %d cases\n%s\n%s' % (len(got), len(vectors), out[-1500:], out2[-1500:]))
@@ -271,10 +398,18 @@ def mode_part(ctx, pool):
 # --------------------------------------------------------------------------- faults
 def faults_replay(ctx, rng, pool):
     fc = pool.submit(harness, ctx, './internal/counter', 'TestVerifC05Faults', {'scenarios': COUNTER_SCENARIOS, 'plans': [], 'budget': 20000})
-    fu = pool.submit(harness, ctx, './internal/upload', 'TestVerifC05Upload', {'scenarios': UPLOAD_SCENARIOS, 'plans': [], 'budget': 200000})
-    (crecs, out), (urecs, out2) = fc.result(), fu.result()
+    fu = pool.submit(surviving, ctx, './internal/upload', 'TestVerifC05Upload', {'plans': [], 'budget': 200000}, 'scenarios', UPLOAD_SCENARIOS, lambda it: it['name'], lambda x: x.get('scn'))
+    (crecs, out), (urecs, deaths) = fc.result(), fu.result()
+    out2 = ''
+    dead_scn = set()
+    for d in deaths:
+        # the fault-free run of the scenario already kills the process: nothing to enumerate for it
+        dead_scn.add(d['item']['name'])
+        ctx.violation('C05:fault:panic-escapes:%s:run:fault-free' % d['where'], {'scenario': d['item'], 'stack': d['stack']},
+                      'scenario %s, fault-free: upload.Run does not return - the process dies: %s (in %s; a panic on a goroutine that Run started is not covered by its recover)' % (
+                          d['item']['name'], d['text'], d['where']))
     recording = {r['scn']: r for r in crecs + urecs if r.get('kind') == 'recording'}
-    scns = [(s, 'counter') for s in COUNTER_SCENARIOS] + [(s, 'upload') for s in UPLOAD_SCENARIOS]
+    scns = [(s, 'counter') for s in COUNTER_SCENARIOS] + [(s, 'upload') for s in UPLOAD_SCENARIOS if s['name'] not in dead_scn]
     if len(recording) != len(scns):
         raise Infra('C05: %d recordings for %d scenarios\n%s\n%s' % (len(recording), len(scns), out[-1500:], out2[-1500:]))
     lines, index = [], {}
@@ -350,8 +485,18 @@ def faults_replay(ctx, rng, pool):
             (cplans if fam == 'counter' else uplans).append(dict(id=pid, scn=s['name'], faults=[dict(idx=i, errno=e) for (i, e) in pl]))
     ctx.log('fault plans to replay: counter %d, upload %d' % (len(cplans), len(uplans)))
     fc = sharded(ctx, pool, './internal/counter', 'TestVerifC05Faults', {'scenarios': COUNTER_SCENARIOS, 'budget': 20000}, 'plans', cplans, 2)
-    fu = sharded(ctx, pool, './internal/upload', 'TestVerifC05Upload', {'scenarios': UPLOAD_SCENARIOS, 'budget': 200000}, 'plans', uplans, 4)
-    (crecs, out), (urecs, out2) = gather(fc), gather(fu)
+    fu = sharded_surviving(ctx, pool, './internal/upload', 'TestVerifC05Upload', {'scenarios': UPLOAD_SCENARIOS, 'budget': 200000}, 'plans', uplans, lambda it: it['id'], lambda x: x.get('id'), 4)
+    (crecs, out), (urecs, deaths) = gather(fc), gather_surviving(fu)
+    out2 = ''
+    nsteps = {s['name']: len(s['steps']) for s in UPLOAD_SCENARIOS}
+    for d in deaths:
+        urecs.append(dict(kind='case', id=d['item']['id'], scn=d['item']['scn'], steps=dead_steps(nsteps[d['item']['scn']], d), fired=[], ncalls=0, posts=0, tree=[], stack=d['stack']))
+    done = {r['id'] for r in crecs + urecs if r.get('kind') == 'case'}
+    if deaths and len(done) != len(meta):
+        # too many deaths: the rest was not run
+        for pid in [p for p in meta if p not in done]:
+            del meta[pid]
+        ctx.log('%d fault plans were not run after %d deaths of the uploader process' % (len(cplans) + len(uplans) - len(done), len(deaths)))
     cases = {r['id']: r for r in crecs + urecs if r.get('kind') == 'case'}
     if len(cases) != len(meta):
         raise Infra('C05: %d results for %d fault plans\n%s\n%s' % (len(cases), len(meta), out[-1500:], out2[-1500:]))
@@ -431,7 +576,9 @@ def faults_decide(ctx, cases, meta, scns, index, rec_text, mc):
         sig = 'C05:fault:%s:%s:%s' % (rule, st['op'], fdesc)
         if rule in ('hang', 'blocked'):
             sig = 'C05:fault:%s:%s:%s:%s' % (rule, hang_fn(st.get('where')), st['op'], fdesc)
-        elif rule in ('panic', 'memfault'):
+        elif rule in ('panic', 'memfault', 'panic-escapes'):
+            if rule == 'panic-escapes':
+                fdesc = ('persistent:%s=%s' % (_PM[pid][0], pcclass(_PM[pid][1]))) if pid in _PM else ('%d-fault plan' % len(pl))
             sig = 'C05:fault:%s:%s:%s:%s' % (rule, st.get('where') or '?', st['op'], fdesc)
         scn = [s for s, _ in scns if s['name'] == name][0]
         ctx.violation(sig, {'scenario': scn, 'plan': [dict(idx=i, errno=e) for (i, e) in pl], 'persistent': _PM.get(pid), 'fired': c['fired'][:40], 'step': k, 'rule': rule,
@@ -505,8 +652,14 @@ def corrupt_replay(ctx, rng, r, pool):
     handed = {x['id']: x for x in recs if x.get('kind') == 'bytes'}
     if handed:
         files = [dict(id=i, name=x['name'], data=x['data']) for i, x in sorted(handed.items())]
-        urecs, out2 = gather(sharded(ctx, pool, './internal/upload', 'TestVerifC05UploadCorrupt', {'budget': 200000, 'maxHangs': ctx.pick(8, 100)}, 'files', files, ctx.pick(2, 3)))
-        out += out2
+        urecs, deaths = gather_surviving(sharded_surviving(ctx, pool, './internal/upload', 'TestVerifC05UploadCorrupt', {'budget': 200000, 'maxHangs': ctx.pick(8, 100)}, 'files', files,
+                                                           lambda it: it['id'], lambda x: x.get('id'), ctx.pick(2, 3)))
+        for d in deaths:
+            urecs.append(dict(kind='case', id=d['item']['id'], ret='panic-escapes', steps=0, where=d['where'], text=d['text'], state='-', bystanders='', recovered=0))
+        ran = {x['id'] for x in urecs}
+        for f in files:
+            if f['id'] not in ran:
+                skipped.add(f['id'])
         for x in urecs:
             if x.get('kind') == 'skipped':
                 skipped.add(x['id'])
